@@ -123,6 +123,8 @@ pub(super) struct Universe {
     pub(super) issued_events: Vec<(usize, String)>,
     pub(super) salt: u64,
     pub(super) profile: String,
+    /// activation heights (Aspen, Blackburn), set by the simulator
+    pub(super) upgrades: (u64, u64),
 }
 
 fn pick_amount(rng: &mut ChaChaRng) -> u128 {
@@ -213,6 +215,7 @@ impl Universe {
             issued_events: vec![],
             salt: rng.next_u64(),
             profile: _profile.to_string(),
+            upgrades: (0, 0),
         }
     }
 
@@ -578,7 +581,14 @@ async fn gen_action<S: StateRead>(
                 }), intent))
             } else {
                 // destination must be another bridge (same asset normally)
-                let to = *bridge_list.iter().filter(|x| **x != b).collect::<Vec<_>>().choose(rng).copied()?;
+                // ... or, sometimes, the source bridge itself (nothing forbids it: same asset, same rollup): debit and credit then alias
+                // one balance, and the published deposit must still be backed
+                let to = if rng.gen_bool(0.2) || bridge_list.len() == 1 {
+                    intent = format!("{intent}:to_self");
+                    b
+                } else {
+                    *bridge_list.iter().filter(|x| **x != b).collect::<Vec<_>>().choose(rng).copied()?
+                };
                 Some((from, Action::BridgeTransfer(BridgeTransfer {
                     to: u.accts[to].address(), amount, fee_asset, destination_chain_address: "rollup-dest".into(), bridge_address: u.accts[b].address(),
                     rollup_block_number: rng.gen_range(1..1000), rollup_withdrawal_event_id: event_id,
@@ -806,7 +816,7 @@ pub(super) async fn generate_block_txs<S: StateRead>(
     rng: &mut ChaChaRng,
     state: &S,
     committed: &[BuiltTx],
-    _height: u64,
+    height: u64,
     profile: &str,
 ) -> Vec<BuiltTx> {
     let mut out = vec![];
@@ -1036,6 +1046,41 @@ pub(super) async fn generate_block_txs<S: StateRead>(
                             out.push(t);
                         }
                     }
+                }
+            }
+        }
+    }
+    // transactions that straddle an upgrade: everything generated here is checked (CheckTx, against the state committed *before* the
+    // upgrade block) and then executed inside the upgrade block, after `pre_execute_transactions` has applied the upgrade - by the
+    // proposer through the CheckedTransaction its mempool built earlier, by everybody else through one rebuilt from the block bytes.
+    // One transaction per action kind at the activation height; two bridge accounts are created in the block before, so that
+    // bridge actions have something to act on.
+    let (aspen, blackburn) = u.upgrades;
+    if matches!(profile, "paths" | "mixed" | "bridge" | "authz" | "atomic") && (height + 1 == aspen || height + 1 == blackburn) {
+        for _ in 0..2 {
+            if let Some((signer, action, _)) = gen_action(u, rng, state, "init_bridge", None, false).await {
+                let base = match next_nonce.get(&signer) {
+                    Some(n) => *n,
+                    None => state.get_account_nonce(&u.accts[signer].addr).await.unwrap_or(0),
+                };
+                if let Some(b) = build_tx(signer, &u.accts[signer].key, base, vec![action], "before_upgrade:init_bridge") {
+                    next_nonce.insert(signer, base + 1);
+                    out.push(b);
+                }
+            }
+        }
+    }
+    if matches!(profile, "paths" | "mixed" | "bridge" | "authz" | "atomic") && (height == aspen || height == blackburn) {
+        for kind in ["transfer", "rollup_data", "bridge_lock", "bridge_unlock", "bridge_transfer", "bridge_sudo_change", "bridge_sudo_change", "ics20_withdrawal",
+            "validator_update", "fee_asset_change", "fee_change", "ibc_relayer_change", "ibc_sudo_change", "sudo_address_change", "init_bridge"] {
+            if let Some((signer, action, intent)) = gen_action(u, rng, state, kind, None, false).await {
+                let base = match next_nonce.get(&signer) {
+                    Some(n) => *n,
+                    None => state.get_account_nonce(&u.accts[signer].addr).await.unwrap_or(0),
+                };
+                if let Some(b) = build_tx(signer, &u.accts[signer].key, base, vec![action], &format!("straddles_upgrade:{intent}")) {
+                    next_nonce.insert(signer, base + 1);
+                    out.push(b);
                 }
             }
         }
